@@ -11,9 +11,12 @@
     after its first hit, returns that first handle, and reports a miss only after
     walking the whole itinerary without one ([C13_lookup_order_any_depth]); a
     touch walks the same itinerary, stops at the first copy whose access time it
-    could set, and tries no other ([C13_touch_order_any_depth]). *)
+    could set, and tries no other ([C13_touch_order_any_depth]); and the judge of
+    get_or_update is told "primary" exactly when the handle it is given came from
+    the LAST successful read-only open, that open named an entry of the write
+    cache, and only lookup calls happened since ([C13_primary_iff_from_the_write_cache]). *)
 From Coq Require Import List NArith ZArith String Bool.
-From Kismet Require Import Pure.Hash FS.Fs FS.Prog Spec.Wp Ops.Ops Spec.StackSpec Proofs.StackSweep Proofs.LookupOrder Proofs.PutNeverOverwrites.
+From Kismet Require Import Pure.Hash FS.Fs FS.Prog Spec.Wp Ops.Ops Spec.StackSpec Proofs.StackSweep Proofs.LookupOrder Proofs.PutNeverOverwrites Proofs.HitKind.
 Import ListNotations.
 
 (** The whole matrix: every configuration, every operation. *)
@@ -104,4 +107,26 @@ Theorem C13_touch_monitor_meaning : forall p q fd t,
 Proof.
   intros p q fd t. repeat split. intros H. cbn [to_step fst snd].
   destruct (path_eqb q p) eqn:E; [apply path_eqb_eq in E; congruence|reflexivity].
+Qed.
+
+(** Hit kind, any depth, all responses (no checker; read-only levels on paths other
+    than the write cache's).  [marked j] puts a ghost mark (4 = primary, 5 =
+    secondary) in front of the judge [j], any judge. *)
+Theorem C13_primary_iff_from_the_write_cache : forall cfg k (j : judge) pop,
+  s_checker cfg = None ->
+  let wpaths := match s_writer cfg with Some w => front_paths w k | None => [] end in
+  (forall f p, In f (s_readers cfg) -> In p (front_paths f k) -> existsb (path_eqb p) wpaths = false) ->
+  wp (pj_step wpaths) (get_or_update cfg k (marked j) pop) (fun _ _ => True) PNone.
+Proof. intros cfg k j pop Hc wpaths Hdis. exact (judge_is_told_the_truth wpaths cfg k j pop Hc eq_refl Hdis). Qed.
+
+Theorem C13_hit_kind_monitor_meaning : forall w p fd,
+  pj_step [w] PNone (EvCall (COpen w RDONLY) (RFd fd)) = Some (PLast true) /\
+  (p <> w -> pj_step [w] PNone (EvCall (COpen p RDONLY) (RFd fd)) = Some (PLast false)) /\
+  pj_step [w] (PLast false) (EvMark 4 []) = None /\ pj_step [w] (PLast true) (EvMark 5 []) = None /\
+  pj_step [w] PNone (EvMark 4 []) = None /\
+  pj_step [w] (PLast true) (EvMark 4 []) = Some PDone /\ pj_step [w] (PLast false) (EvMark 5 []) = Some PDone /\
+  pj_step [w] (PLast true) (EvCall (CStat p false) ROk) = Some PDone.
+Proof.
+  intros w p fd. cbn [pj_step lookup_call existsb N.eqb Pos.eqb]. rewrite path_eqb_refl. cbn [orb]. repeat split.
+  intros H. destruct (path_eqb p w) eqn:E; [apply path_eqb_eq in E; contradiction|reflexivity].
 Qed.
